@@ -47,7 +47,7 @@ ASSUMPTIONS = [
     "every labelled frame holds at least one non-empty user instance (frame filtering is C11's business)",
 ]
 TIERS = {
-    "quick": {"runs": 5000, "time_cap_s": 80, "chunk": 40, "det_inproc": 6, "det_fresh": 4, "minimise_s": 60},
+    "quick": {"runs": 9000, "time_cap_s": 80, "chunk": 40, "det_inproc": 6, "det_fresh": 4, "minimise_s": 60},
     "thorough": {"runs": 300000, "time_cap_s": 1200, "chunk": 100, "det_inproc": 30, "det_fresh": 15, "minimise_s": 180},
 }
 KINDS = ["single", "centroid", "centered", "bottomup"]
